@@ -47,6 +47,45 @@ def _api_code(text: str, name: str, cmd: str, o: dict):
                              stiff_states=o.get("stiff_states", []), delta=o.get("delta", 1e-8))
 
 
+def spec_code(text: str, name: str, cmd: str, o: dict):
+    """the same module composed directly from the code generator's documented methods — independent of
+    `cli.utils.add_schemes`: every scheme receives the options its function accepts (`delta` for the
+    Rush–Larsen schemes under any accepted name, `stiff_states` for the hybrid scheme)"""
+    import inspect
+    with _API_LOCK:
+        from gotranx.codegen.c import CCodeGenerator, Format as CF, get_formatter as c_formatter
+        from gotranx.codegen.python import PythonCodeGenerator, Format as PF, get_formatter as py_formatter
+        from gotranx.codegen.jax import JaxCodeGenerator
+        from gotranx.schemes import get_scheme
+        ode = common.load(text, name=name)
+        ru = o.get("remove_unused", False)
+        if cmd == "ode2py":
+            G = JaxCodeGenerator if o.get("backend", "numpy") == "jax" else PythonCodeGenerator
+            cg = G(ode, format=PF.none, remove_unused=ru)
+            head = [cg.imports()]
+            fmt = PF(o.get("format", "black"))
+            formatter = py_formatter(format=fmt) if fmt != PF.none else None
+        else:
+            cg = CCodeGenerator(ode, remove_unused=ru, format=CF.none)
+            head = [cg.imports(), f"int NUM_STATES = {len(ode.states)};", f"int NUM_PARAMS = {len(ode.parameters)};",
+                    f"int NUM_MONITORED = {len(ode.state_derivatives) + len(ode.intermediates)};"]
+            fmt = CF(o.get("format", "clang-format"))
+            formatter = c_formatter(format=fmt) if fmt != CF.none else None
+        comp = head + [cg.parameter_index(), cg.state_index(), cg.monitor_index(), cg.missing_index(),
+                       cg.initial_parameter_values(), cg.initial_state_values(), cg.rhs(), cg.monitor_values(), ""]
+        for s in o.get("scheme", []):
+            f = get_scheme(s)
+            accepted = inspect.signature(f).parameters
+            kw = {}
+            if "delta" in accepted:
+                kw["delta"] = o.get("delta", 1e-8)
+            if "stiff_states" in accepted:
+                kw["stiff_states"] = o.get("stiff_states", [])
+            comp.append(cg.scheme(f, **kw))
+        code = cg._format("\n".join(comp))
+        return formatter(code) if formatter else code
+
+
 def cli_args(cmd: str, fname: str, o: dict, cfgpath: str | None):
     a = [cmd, fname]
     for s in o.get("scheme", []):
@@ -145,6 +184,29 @@ def c18_case(ctx: Ctx, case: dict):
                 pass
         ctx.violate(f"C18/{cmd}/differs-from-api/{culprit}",
                     f"{cmd} wrote text that differs from get_code with the same options (option not honoured: {culprit})", case=case)
+    else:
+        # … and against the module composed from the code generator's own methods
+        try:
+            spec = spec_code(text, "model", cmd, eff)
+        except Exception as ex:
+            ctx.count(f"spec_raises/{type(ex).__name__}")
+            spec = None
+        if spec is not None:
+            ctx.count("files_compared_with_codegen_api")
+            if spec != got:
+                culprit = "unknown"
+                for k in sorted(eff):
+                    alt = dict(eff)
+                    alt.pop(k)
+                    try:
+                        if spec_code(text, "model", cmd, alt) == got:
+                            culprit = k
+                            break
+                    except Exception:
+                        pass
+                ctx.violate(f"C18/{cmd}/differs-from-codegen-api/{culprit}",
+                            f"{cmd} wrote text that differs from the module composed from CodeGenerator methods with the same options "
+                            f"(option not honoured: {culprit})", case=case)
     extra = [p for p in produced if p != target.name and not p.endswith(".toml")]
     if extra:
         ctx.violate(f"C18/{cmd}/extra-files", f"{cmd} wrote additional files {extra}", case=case)
